@@ -121,7 +121,7 @@ func (d *DeterministicSharder) Start() error {
 		// host can run.
 		self, err = d.Peers.GetInstanceID()
 		if err == nil {
-			for _, peerShard := range d.peers {
+			for _, peerShard := range d.currentPeers() {
 				if self == peerShard.GetAddress() {
 					d.myShard = peerShard
 					return nil
@@ -133,8 +133,16 @@ func (d *DeterministicSharder) Start() error {
 		time.Sleep(5 * time.Second)
 	}
 
-	d.Logger.Error().WithFields(map[string]interface{}{"peers": d.peers, "self": self}).Logf("failed to find self in the peer list")
+	d.Logger.Error().WithFields(map[string]interface{}{"peers": d.currentPeers(), "self": self}).Logf("failed to find self in the peer list")
 	return errors.New("failed to find self in the peer list")
+}
+
+// currentPeers returns the current peer list; the peers callback registered by
+// Start may replace it at any time, so it has to be read under the lock.
+func (d *DeterministicSharder) currentPeers() []detShard {
+	d.peerLock.RLock()
+	defer d.peerLock.RUnlock()
+	return d.peers
 }
 
 // loadPeerList will run every time any config changes (not only when the list
